@@ -7,9 +7,10 @@
      ups : Q -> Q -> nat -> nat -> Q        the upsampled local window: `ups x y a b` is entry [a,b] of
                                             dft_upsample(cc, up, (x, y))   (NumPy; x,y = refined peak)
                                             dftUpsample_torch(conj cc, up, (x, y)) (torch; x,y = upsampleCenter)
-   The NumPy model is the REPAIRED behaviour (fixes/C13-numpy-dft-upsample.diff): the window is
-   centred on index du and its samples are taken at x0 + (a - du)/up; the two lines of the shipped
-   code that differ are kept as [np_offset_shipped] / [np_kern_phase_shipped] for the record.
+   The NumPy model is the REPAIRED behaviour (fixes/C13-numpy-dft-upsample.diff, committed in /repo:
+   the window is centred on index du and its samples are taken at x0 + (a - du)/up; the two lines
+   of the shipped code that differ are kept as [np_offset_shipped] / [np_kern_phase_shipped] for
+   the record; and fixes/C13-max-shift-parabola.diff: see [np_stage1]).
    Definitions only; proofs are in proof/C13_Proofs.v. *)
 From QV.lib Require Import Prelude.
 From Coq Require Import QArith Qround.
@@ -87,7 +88,20 @@ Definition centre_int (n : nat) (p : nat) : Z := fz n p.
 
 (* ---------------------------------------------------------------- NumPy, stage 1 *)
 (* coarse peak (p, q) and the parabolically refined (x0, y0) = ((p + dx) % M, (q + dy) % N) *)
+(* REPAIRED behaviour (fixes/C13-max-shift-parabola.diff): the max_shift mask restricts only the
+   search for the coarse peak; the parabola reads the unmasked correlation.  (As shipped the
+   parabola read the masked array: [np_stage1_shipped].) *)
 Definition np_stage1 (M N : nat) (ms : option Q) (cc : nat -> nat -> Q)
+  : option ((nat * nat) * (Q * Q)) :=
+  let '(p, q) := argmax2 M N (masked M N ms cc) in
+  let c := cc in
+  match parab (c (prv M p) q) (c p q) (c (nxt M p) q),
+        parab (c p (prv N q)) (c p q) (c p (nxt N q)) with
+  | Some dx, Some dy => Some ((p, q), (qmod (qN p + dx) M, qmod (qN q + dy) N))
+  | _, _ => None
+  end.
+
+Definition np_stage1_shipped (M N : nat) (ms : option Q) (cc : nat -> nat -> Q)
   : option ((nat * nat) * (Q * Q)) :=
   let c := masked M N ms cc in
   let '(p, q) := argmax2 M N c in
